@@ -520,6 +520,7 @@ pub fn with<R>(f: impl FnOnce(&mut Heap) -> R) -> R {
 
 #[cfg(feature = "hooks")]
 unsafe fn hook_alloc(layout: Layout) -> *mut u8 {
+    crate::callbacks::hook_fx_tick();
     let _g = HookGuard::enter();
     HEAP.with(|h| match h.try_borrow_mut() {
         Ok(mut h) => unsafe { h.do_alloc(layout) },
@@ -528,6 +529,7 @@ unsafe fn hook_alloc(layout: Layout) -> *mut u8 {
 }
 #[cfg(feature = "hooks")]
 unsafe fn hook_realloc(ptr: *mut u8, layout: Layout, new_size: usize) -> *mut u8 {
+    crate::callbacks::hook_fx_tick();
     let _g = HookGuard::enter();
     HEAP.with(|h| match h.try_borrow_mut() {
         Ok(mut h) => unsafe { h.do_realloc(ptr, layout, new_size) },
@@ -536,6 +538,7 @@ unsafe fn hook_realloc(ptr: *mut u8, layout: Layout, new_size: usize) -> *mut u8
 }
 #[cfg(feature = "hooks")]
 unsafe fn hook_dealloc(ptr: *mut u8, layout: Layout) {
+    crate::callbacks::hook_fx_tick();
     let _g = HookGuard::enter();
     let _ = HEAP.try_with(|h| {
         if let Ok(mut h) = h.try_borrow_mut() {
@@ -545,6 +548,7 @@ unsafe fn hook_dealloc(ptr: *mut u8, layout: Layout) {
 }
 #[cfg(feature = "hooks")]
 fn hook_note(kind: lean_string::verif_hooks::Note, ptr: *const u8, len: usize) {
+    crate::callbacks::hook_fx_tick();
     let _g = HookGuard::enter();
     let _ = HEAP.try_with(|h| {
         if let Ok(mut h) = h.try_borrow_mut() {
